@@ -213,7 +213,9 @@ class ASTNode(DataClassSerializeMixin):
             sort_keys=True,
         ):
             cid_data += f":{f.name}="
-            cid_data += f"{type(val)}({val!s})"
+            # Escape the closing bracket so that the value's text can't be confused with the framing
+            sval = str(val).replace("\\", "\\\\").replace(")", "\\)")
+            cid_data += f"{type(val)}({sval})"
 
         # Full ID must include origin's (current node and children)
         id_data = f"{self.__class__.__name__}@{self.origin.fqn}{cid_data}"
